@@ -101,6 +101,24 @@ def bucketSpecOK (r B : Int) (calls : List (Bytes × Int)) (outs : List Out) : B
      | [] => true
      | (t0, _) :: _ => if sorted (p.map (·.1)) then refAgrees r B { level := B, at_ := t0 } p else true)
 
+/-! ## simultaneous first requests on a cold limiter (wall clock) -/
+
+/-- `G` requests released together on a fresh limiter, answered within less than one token's worth of
+    refill: at most `burst` of them are admitted. (Each goroutine reads the clock on its own, so the
+    calls reach the store with timestamps that may regress by microseconds — the statement allows the
+    resulting *under*-admission, never more than the tokens available.) -/
+def coldSpecOK (burst : Int) (outs : List Out) : Bool :=
+  decide (((outs.filter (·.allowed)).length : Int) ≤ burst)
+
+/-- what every such run produces besides the bound, micro-regressions of the clock included: the
+    k-th admission leaves at most `burst − k` whole tokens (so among the admitted calls, those reporting
+    `remaining ≥ v` number at most `burst − v`), a rejected call reports no token left -/
+def coldShapeOK (burst : Int) (outs : List Out) : Bool :=
+  let adm := outs.filter (·.allowed)
+  (adm.all fun o => decide (0 ≤ o.remaining) &&
+      decide (((adm.filter fun p => decide (p.remaining ≥ o.remaining)).length : Int) + o.remaining ≤ burst)) &&
+  (outs.all fun o => o.allowed || (o.remaining == 0 && decide (1 ≤ o.reset)))
+
 /-! ## middleware glue -/
 
 /-- the response of the token-bucket middleware is truthful about the store's answer: a rejected
